@@ -13,7 +13,7 @@ PROP = "C02"
 REQ_PROPS = ["GV.Props.Props_C02"]
 REQ_RUN = ["GV.Mvcc.Run"]
 BINS = ["c01"]
-CLASSES = {1: "C02-K1", 2: "C02-K2", 4: "C02-K4", 5: "C02-K5"}
+CLASSES = {1: "C02-K1", 2: "C02-K2", 5: "C02-K5"}   # C02-K4 fixed by 3eb02b5
 TAG = base.TAG
 
 
@@ -59,7 +59,7 @@ def run(tier, seed, replay_file=None):
         lists.append(m.group(2))
         c["checked_tx"] = int(m.group(3))
         checked += c["checked_tx"]
-        kvals.append(dict(zip([1, 2, 4, 5], base.parse_bools(m.group(4)))))
+        kvals.append(dict(zip([1, 2, 5], base.parse_bools(m.group(4)))))
         c["ctl_fails"] = [int(x) for x in re.findall(r"\d+", m.group(5))]
     extra = base.derive_failures(cases, lists, kvals, CLASSES, "atomic_ok (dump pair)")
     # transaction control (Run.v ctl_fails): a Begin / Commit / Rollback whose outcome is not the state machine's is
